@@ -141,4 +141,73 @@ def crashSafeB (d : Dir) (ops : List FsOp) (file : String) (newContent : String)
     let c := (crash d ops k).get file
     c == d.get file || c == some newContent
 
+/-! ## sessions on one object: several entry points, option combinations, renames
+
+One `BIOGEME` object receives a sequence of public calls.  Every derivative evaluation
+(`calculate_likelihood_and_derivatives` called directly with any `scaled/hessian/bhhh`,
+or through `check_derivatives`, `likelihood_finite_difference_hessian`, the optimiser
+inside `estimate`/`quick_estimate`) runs the same save block *before* the division by
+the sample size: the marker `bestIteration` is always compared with the log likelihood
+on the data, whatever `scaled` is.  `modelName` is a plain attribute read at every save
+(`_save_iterations_file_name` builds the name each time): the file written is the one of
+the name the object has *at that evaluation*.  `estimate` resets the marker and nothing
+else does (`quick_estimate`, a rename do not). -/
+
+inductive Op (α : Type) where
+  /-- one derivative evaluation; `e.f` is the log likelihood on the data (what the engine
+  returns), `scaled` the flag of the call (the caller receives `f / N` when it is on) -/
+  | eval (e : Eval α) (scaled : Bool)
+  /-- `biogeme.modelName = name` -/
+  | rename (name : String)
+  /-- `estimate()`: `bestIteration = None` (the evaluations of the optimiser follow as `eval`) -/
+  | reset
+deriving Repr
+
+/-- model name ↦ values in `__<name>.iter` -/
+abbrev Files := List (String × List String)
+
+def Files.get (d : Files) (n : String) : Option (List String) := d.lookup n
+def Files.set (d : Files) (n : String) (v : List String) : Files := (n, v) :: d.filter (·.1 != n)
+
+structure Sess (α : Type) where
+  name : String
+  best : Option α
+  files : Files
+deriving Repr
+
+/-- the save block of `calculate_likelihood_and_derivatives` rewrites the file iff the
+gradient is finite and `f >= bestIteration` (after `bestIteration = f` when it was None) -/
+def saves {α} (ge : α → α → Bool) (best : Option α) (e : Eval α) : Bool :=
+  e.finite && ge e.f (best.getD e.f)
+
+def sstep {α} (ge : α → α → Bool) (s : Sess α) : Op α → Sess α
+  | .eval e _ =>
+    { name := s.name
+      best := (step ge ⟨s.best, none⟩ e).best
+      files := if saves ge s.best e then s.files.set s.name e.x else s.files }
+  | .rename n => { s with name := n }
+  | .reset => { s with best := none }
+
+def srun {α} (ge : α → α → Bool) (s : Sess α) (ops : List (Op α)) : Sess α :=
+  ops.foldl (sstep ge) s
+
+/-- the files after every operation (what the harness observes) -/
+def strace {α} (ge : α → α → Bool) (s : Sess α) : List (Op α) → List Files
+  | [] => []
+  | o :: t => let s' := sstep ge s o; s'.files :: strace ge s' t
+
+/-- a segment of a session between two estimations: no `reset` inside -/
+def NoReset {α} : List (Op α) → Prop
+  | [] => True
+  | .reset :: _ => False
+  | _ :: t => NoReset t
+
+/-- every evaluation of a session together with the model name the object had when it was
+issued -/
+def namedEvals {α} (name : String) : List (Op α) → List (String × Eval α)
+  | [] => []
+  | .eval e _ :: t => (name, e) :: namedEvals name t
+  | .rename n :: t => namedEvals n t
+  | .reset :: t => namedEvals name t
+
 end IterFile
